@@ -149,3 +149,12 @@ fn cell_guard() {
 instances! {
     c09_k3_cell_guard => cell_guard();
 }
+
+/// harness-side constructor of a dependency set
+pub(crate) fn deps_of(items: Vec<Dependency>) -> Dependencies {
+    let mut s = HashSet::new();
+    for d in items {
+        s.insert(d);
+    }
+    Dependencies(s)
+}
